@@ -12,6 +12,7 @@ VARIABLES births, deaths
 varsH == <<st, count, creator, explicit, h, m, last, births, deaths>>
 
 MCObjType   == <<"Base", "Derived">>
+MCObjTypeDD == <<"Derived", "Derived">>     \* both objects own a member handle: chains, 2-cycles, unlinking
 MCSlotType4 == <<"Base", "Base", "Derived", "Derived">>
 MCSlotType3 == <<"Base", "Base", "Derived">>
 MCSlotTypeCBD == <<"CBase", "Base", "Derived">>
